@@ -57,7 +57,7 @@ class C04(Prop):
     TRUSTED = ["Coq 8.16.1 kernel + vm_compute", "harness/src/scan.rs", "vlib/cond.py (one AST printed to YARA text and "
                "to a Gallina term)", "string matches of plain text strings computed by Python's bytes.find"]
     ASSUMPTIONS = ["the expression parser and compile_expression are not modelled: a mis-parse shows up as a verdict "
-                   "mismatch", "floats, `entrypoint` and module values are outside the model; `matches` is evaluated against Spec/Regex.v is_match on the regex lowered as in Model/Hir.v (the engine behind it is C03's subject)",
+                   "mismatch", "`entrypoint` and module values are outside the model; floats are binary64 values computed with Coq.Floats.SpecFloat (float literals, mixed integer / float + - * \\, unary minus, comparisons, == within f64::EPSILON, truth value); `matches` is evaluated against Spec/Regex.v is_match on the regex lowered as in Model/Hir.v (the engine behind it is C03's subject)",
                    "percentages: only (p, n) on which the code's binary64 computation (vlib/cond.pct_quota_impl, following fix a93a70c) equals the exact ceil(p*n/100) of the model are drawn"]
 
     def budget(self, tier):
@@ -68,6 +68,7 @@ class C04(Prop):
         exts = [("ext_i", "int"), ("ext_s", "bytes")]
         ext_vals = [rng.choice([0, 1, 5, -3, 1 << 40]), rng.choice([b"", b"ab", b"AB\x00"])]
         g = cond.Gen(rng, len(STRINGS), len(mem), exts, max_depth=4, of_at_in=True)
+        g.floats = True
         forced_sugar = None
         while True:
             c = g.gbool(rng.range(1, 4))
@@ -81,6 +82,8 @@ class C04(Prop):
                 c, forced_sugar = wildcard_sets(rng), rng.choice([2, 3, 7])
             elif rng.chance(1, 12):
                 c = regex_match(rng, len(STRINGS))
+            elif rng.chance(1, 10):
+                c = g.gfloat_bool(rng.range(0, 2))
             probes = [g.gint(rng.range(0, 3)) for _ in range(rng.range(0, 4))]
             if not cond.has_big_range(c) and not any(cond.has_big_range(p) for p in probes):
                 break
@@ -163,7 +166,7 @@ class C04(Prop):
 
     def nontrivial(self, case, out):
         s = json.dumps(case["cond"])
-        if any(k in s for k in ['"var', '"count', '"offset', '"length', '"for', '"of']):
+        if any(k in s for k in ['"var', '"count', '"offset', '"length', '"for', '"of', '"float']):
             return json.dumps([case["cond"], case["mem"], case["probes"]])
         return None
 
